@@ -271,7 +271,7 @@ pub fn run(ctx: &Ctx) -> Report {
     // work item = (type, with_shx, block of words)
     let blocks = 16usize;
     // (type, with index, block of words, shape-pair variant). Variant 1 (Z / M types): shape a has
-    // every Z = +inf and every M = -inf, shape b ordinary finite values on both sides of 0 — the
+    // every Z = +inf and every M = -inf, shape b finite values on the far side of 0 (Z > 0, M < 0) — the
     // header ranges then depend on WHEN the running box is reset.
     let items: Vec<(i32, bool, usize, usize)> = types
         .iter()
@@ -282,7 +282,7 @@ pub fn run(ctx: &Ctx) -> Report {
         let mut r = Rng::derive(ctx.seed, &[tag("c09"), t as u64]);
         let (sa, sb) = gen::two_sizes(t, &mut r);
         let (sa, sb) = if variant == 1 {
-            (crate::shapes::with_uniform_z_m(&sa, f64::INFINITY, f64::NEG_INFINITY), crate::shapes::with_uniform_z_m(&sb, -2.5, 3.5))
+            (crate::shapes::with_uniform_z_m(&sa, f64::INFINITY, f64::NEG_INFINITY), crate::shapes::with_uniform_z_m(&sb, 2.5, -3.5))
         } else {
             (sa, sb)
         };
